@@ -15,8 +15,13 @@ PROVED in the explicit decidable region outside finding F4: `extend_assoc_partia
 `entry(key).or_insert(..)` keeps the `Destroyed` marker instead of A's present value), so `FullStatement`
 itself is not provable.
 Outside the statement (not about what `extend` describes, but about `revert` afterwards): F5 — reverts of the
-second half carry `previous_status` of another cache lineage; F3 (see C16) — second half built after
+second half carry `previous_status` of another cache lineage; the region in which the correspondence oracle claims
+`revert(j)` on an extended bundle is the decidable `Spec.Bundle.extRevertOk` (j within the second half, no wiping
+revert among the reverted blocks, no account destroyed in the first bundle present in the second) — no theorem;
+`extend_revert_counterexample` (F5) is outside it (`f5_outside_region`); F3 (see C16) — second half built after
 `take_bundle` on a continuing `State` (excluded by "fresh State").
+PROVED at full strength: `prepend_post_state` — the post-state of `prepend_state` (the newer bundle B prepended
+with the older A describes the step from A's pre-state to B's post-state, both flags; its reverts are A's).
 Also proved: `take_n_reverts` is `List.splitAt` (and `take_all_reverts` its `n > len` case),
 `prepend_state` / `extend_state` never override values of the newer bundle and keep older-only addresses.
 Proof of the extend theorems (Proofs/BundleInvExtend.lean): C16's invariant for both halves, the invariant
@@ -35,6 +40,14 @@ history split at any group boundary (each half under any merge schedule, each by
 state committed so far), both `OriginalValuesKnown` settings: `extend(A, B)`'s changeset applied to the
 pre-state of A is the post-state of B; nothing panics -/
 theorem extend_post_state : FullStatementPostState := extend_post_proof
+
+/-- post-state of `prepend_state` -/
+def FullStatementPrependPostState : Prop := PrependPostStatement
+
+/-- **C18, `prepend_state`, post-state**: same quantification as `extend_post_state`; `B.prepend_state(A)` for the
+newer bundle B (second half) and the older A: its changeset applied to the pre-state of A is the post-state of B
+(`extend_state` without the revert rewriting of `extend`), and its reverts are A's -/
+theorem prepend_post_state : FullStatementPrependPostState := prepend_post_proof
 
 /-- **C18, whole statement outside F4**: the post-state as above and, when no storage-wiping revert of B
 lists as `Destroyed` a slot held by A's account (`extendOk`, decidable), every block of the extended
@@ -148,6 +161,17 @@ theorem extend_revert_counterexample :
       ((applyChangeset (toPlainState (revertN (extend a b) 1) true) Wit.f5p0).slot 5 3, r1.slot 5 3)) = some (7, 0) ∧
     (Wit.runLast { db := Wit.f5db, sc := true } Wit.f5p0 (Wit.f5h1 ++ Wit.f5h2)).map (fun r =>
       (applyChangeset (toPlainState (revertN r.1.bundle 1) true) Wit.f5p0).slot 5 3) = some 0 := by
+  decide
+
+/-- F5's split is outside the region `extRevertOk` in which `revert` after `extend` is claimed (contract 5 is held
+with status `Destroyed` by bundle A and re-created in bundle B); a split without destruction is inside -/
+theorem f5_outside_region :
+    (Wit.split Wit.f5db [] Wit.f5p0 Wit.f5h1 Wit.f5h2).map (fun (a, b, _, _) => extRevertOk a b 1) = some false ∧
+    (Wit.split Wit.f4db [(2, ⟨3, 1, 1, false⟩)] Wit.f4p0 Wit.f4h1
+        [[[(2, Wit.ea 3 1 1 false false [(1, ⟨7, 9⟩)])]]]).map (fun (a, b, r1, _) =>
+      (extRevertOk a b 1, (applyChangeset (toPlainState (revertN (extend a b) 1) true) Wit.f4p0).slot 2 1,
+       (applyChangeset (toPlainState (revertN (extend a b) 1) false) Wit.f4p0).slot 2 1, r1.slot 2 1)) =
+      some (true, 7, 7, 7) := by
   decide
 
 end Revm.Props.C18
